@@ -32,8 +32,11 @@ MC = {
     "C06": [("MC_Passthrough", "MC_Pt_contained_quick.cfg", "MC_Pt_contained_thorough.cfg")],
     "C18": [("MC_Passthrough", "MC_Pt_sealed_quick.cfg", "MC_Pt_sealed_thorough.cfg"), ("MC_Passthrough", "MC_Pt_sealed_noopen_quick.cfg", "MC_Pt_sealed_noopen.cfg")],
 }
-# the same I-level model with the known findings NOT excused: TLC must derive them (binding of the MC side)
-MC_NOTAINT = {"C05": ("MC_Pt_mirror_notaint.cfg", "MirrorOK"), "C18": ("MC_Pt_sealed_notaint.cfg", "Sealed")}
+# anti-vacuity: the same I-level model with the code AS FOUND switched back on (constant AsFound) must violate the
+# invariant again; exit 2 otherwise. These runs are not evidence: their states are not counted.
+MC_ASFOUND = {"C05": [("MC_Pt_asfound_c05.cfg", "MirrorOK")],
+              "C06": [("MC_Pt_asfound_c06.cfg", "ContainedOK")],
+              "C18": [("MC_Pt_asfound_c18.cfg", "Sealed"), ("MC_Pt_asfound_c18fd.cfg", "HandlesOK")]}
 
 
 def run_mc(ctx, pid):
@@ -75,12 +78,13 @@ def run_mc(ctx, pid):
     if never:
         raise C.ToolError("vacuity gate: actions never taken successfully in the I-level configurations of %s: %s" % (pid, never))
     ctx.extra["action_coverage"] = {"%s/%s" % (k[0], "ok" if k[1] else "fail"): v for k, v in sorted(acts.items())}
-    if pid in MC_NOTAINT:
-        cfg, inv = MC_NOTAINT[pid]
-        r = C.tlc_mc(ctx, "MC_Passthrough", cfg=cfg, workers=8, timeout=900, cont=True, coverage=False, expect_violation=True)
+    for cfg, inv in MC_ASFOUND.get(pid, []):
+        keep = (ctx.states, ctx.transitions, list(ctx.mc_runs))
+        r = C.tlc_mc(ctx, "MC_Passthrough", cfg=cfg, workers=8, timeout=600, cont=True, coverage=False, expect_violation=True)
+        ctx.states, ctx.transitions, ctx.mc_runs = keep
         if inv not in r["violated"]:
-            raise C.ToolError("MC binding: with the known findings not excused TLC must violate %s in %s (got %s)" % (inv, cfg, r["violated"]))
-        ctx.extra.setdefault("binding_demo", []).append({"corruption": "known-finding taint switched off in %s" % cfg, "rejected_with": r["violated"]})
+            raise C.ToolError("anti-vacuity: with the as-found code switched on TLC must violate %s in %s (got %s)" % (inv, cfg, r["violated"]))
+        ctx.extra.setdefault("binding_demo", []).append({"corruption": "as-found code switched back on in the I-level model (%s)" % cfg, "rejected_with": r["violated"]})
     # replay a seeded sample of the exported histories on the real code
     import random
     rnd = random.Random(ctx.seed)
@@ -258,9 +262,8 @@ def run_c05(ctx):
         raise C.ToolError("coverage gate: only %d of 256 configuration points" % len(points))
 
     def mut(rows):
-        gentle = {r["seg"] for r in rows if r.get("e") == "Reset" and r.get("gentle")}     # histories that stay in step with the shadow
         for r in rows:
-            if r.get("e") == "Step" and r["seg"] in gentle and r["pt"]["st"] == "OK" and r["host"]["st"] == "OK" and r["op"]["op"] in ("mkdir", "mknod") and r["pt"]["ch"]:
+            if r.get("e") == "Step" and r["pt"]["st"] == "OK" and r["host"]["st"] == "OK" and r["op"]["op"] in ("mkdir", "mknod") and r["pt"]["ch"]:
                 r["pt"]["attr"]["perm"] ^= 0o022
                 return ("permission bits of one created object flipped in the passthrough reply", r)
 
@@ -354,7 +357,7 @@ def run_c18(ctx):
     ctx.extra["rule"] = "distinct = (operation, status, flags class, name kind); seal classes = (op, flags/mode/valid, plainly-neutral?, succeeded?) = %d; x {no_open}" % len(classes)
     ctx.assumptions += ASSUME_COMMON + [
         "Reading of C18: (1) sizes of pre-existing regular files never change; (2) plainly size-neutral requests have the unsealed (host) result; (3) anything else may be refused or succeed as long as (1) holds",
-        "half of the histories ('gentle') avoid the non-append WRITE beyond the size, whose refusal drops the handle's descriptor (known finding), so that the other request classes are reached",
+        "half of the histories ('gentle') keep non-append WRITEs within the current size so that more requests succeed; the other half sends them beyond the size as well",
     ]
 
 
